@@ -209,7 +209,14 @@ func (s *SFTPStore) HasChunk(id ChunkID) (bool, error) {
 	defer func() { s.pool <- c }()
 	name := c.nameFromID(id)
 	_, err := c.client.Stat(name)
-	return err == nil, nil
+	if err == nil {
+		return true, nil
+	}
+	if os.IsNotExist(err) {
+		return false, nil
+	}
+	// Anything else (connection lost, permission denied) doesn't say the chunk is missing
+	return false, errors.Wrap(err, c.String())
 }
 
 // Prune removes any chunks from the store that are not contained in a list
